@@ -143,3 +143,187 @@ def nontrivial(case):
     f = dict(kv.split("=", 1) for kv in t.split(";") if "=" in kv)
     return (f.get("nm") != "1" or f.get("pmods") not in ("plain", "") or f.get("own") != "" or f.get("errm") != "none"
             or f.get("units") != "1" or any(x != "none" for x in f.get("fails", "").split(",")))
+
+
+def annotate(case, v):
+    """Make the symptom of a failing verdict explicit in its `why` (known findings are keyed on it):
+    which instantiation events are missing/extra, which name a failing probe refers to, the engine's message."""
+    if v["pass"] or v["step"] >= len(case["steps"]) or v["step"] >= len(v.get("got", [])):
+        return v
+    st, got = case["steps"][v["step"]], v["got"][v["step"]]
+    notes = []
+    if st.get("emit") is not None and v["why"].startswith("emit:"):
+        exp_i = [e for e in st["emit"] if e.startswith("init-")]
+        got_i = [e for e in got["emit"] if e.startswith("init-")]
+        miss = [e for e in exp_i if e not in got_i]
+        extra = [e for e in got_i if e not in exp_i] + [e for e in set(got_i) if got_i.count(e) > 1]
+        if miss:
+            notes.append("missing-init: " + ",".join(miss))
+        if extra:
+            notes.append("extra-init: " + ",".join(sorted(set(extra))))
+        if not miss and not extra and exp_i != got_i:
+            notes.append("init-order")
+        if not miss and not extra and exp_i == got_i:
+            notes.append("value-mismatch")
+    if st["src"].startswith("(emit ("):
+        notes.append("probe: " + st["src"][7:].split(" ")[0])
+    elif st["src"].startswith("(require"):
+        notes.append("unit")
+    if got.get("msg"):
+        notes.append("msg: " + got["msg"][:90])
+    v = dict(v)
+    v["why"] = v["why"] + " [" + "; ".join(notes) + "]"
+    return v
+
+
+ENVS = {
+    "dflt": None,                                   # module inlining off, JIT on
+    "minl": {"STEEL_MODULE_INLINE": "1"},
+    "nojit": {"STEEL_JIT": "false"},
+    "nojit-minl": {"STEEL_JIT": "false", "STEEL_MODULE_INLINE": "1"},
+}
+
+
+def replay_env(cases, work, envname, name):
+    """Replay `cases` under one engine configuration; ids get the configuration as suffix."""
+    env = ENVS[envname]
+    cs = [dict(c, id=f"{c['id']}.{envname}", tag=c["tag"] + f";env={envname}") for c in cases]
+    # the files of a case are shared by all its configurations: the directory is named by the base id
+    vs = vlib.replay(cs, work, env_extra=env, jobs=12, timeout_ms=30000, name=name)
+    return cs, [annotate(c, v) for c, v in zip(cs, vs)]
+
+
+def selftest(cases, work):
+    """Non-vacuity: three mutant oracles must be reported by the replayer.
+       (1) a name the spec says is NOT visible is expected to be callable,
+       (2) a module is expected to be instantiated twice,
+       (3) a contract violation at the boundary is expected to go unnoticed."""
+    muts = []
+    for c in cases:
+        steps = c["steps"]
+        if len(muts) == 0:
+            for i, s in enumerate(steps):
+                if s["class"] == "err" and s["src"].startswith("(emit (helper 1))") and "(define (helper" in "".join(c["files"].values()):
+                    m = json.loads(json.dumps(c))
+                    m["id"] = "mutant-private-visible"
+                    m["steps"][i]["class"] = "ok"
+                    m["steps"][i]["emit"] = None
+                    muts.append(m)
+                    break
+        if len(muts) == 1:
+            s0 = steps[0]
+            if s0["class"] == "ok" and s0["emit"] and s0["emit"][0].startswith("init-"):
+                m = json.loads(json.dumps(c))
+                m["id"] = "mutant-instantiated-twice"
+                m["steps"][0]["emit"] = [s0["emit"][0]] + s0["emit"]
+                muts.append(m)
+        if len(muts) == 2:
+            for i, s in enumerate(steps):
+                if (s["class"] == "err" and s["src"].endswith(" 's))") and i > 0
+                        and steps[i - 1]["class"] == "ok" and steps[i - 1]["src"] == s["src"].replace(" 's))", " 1))")):
+                    m = json.loads(json.dumps(c))
+                    m["id"] = "mutant-contract-unchecked"
+                    m["steps"][i]["class"] = "ok"
+                    m["steps"][i]["emit"] = None
+                    muts.append(m)
+                    break
+        if len(muts) == 3:
+            break
+    if len(muts) < 3:
+        raise vlib.ToolError(f"self-test: only {len(muts)} mutant oracles could be built")
+    for m in muts:
+        src_id = None
+        for c in cases:
+            if c["files"] == m["files"] and c["steps"][0]["src"] == m["steps"][0]["src"]:
+                src_id = c["id"]
+                break
+        # the mutant reuses the files (and the directory) of the case it was derived from
+        assert src_id is not None
+    vs = vlib.replay(muts, work, jobs=3, timeout_ms=30000, name="c14-selftest")
+    for m, v in zip(muts, vs):
+        if v["pass"]:
+            raise vlib.ToolError(f"self-test: mutant oracle {m['id']} was not reported by the replayer")
+    return len(muts)
+
+
+# (cfg, prefix, exhaustive?, quick count, thorough count): exhaustive slices are enumerated completely by
+# TLC and then sampled by seed; simulations draw `count` behaviours (TLC -simulate, seeded)
+FAMILIES = [
+    ("MC_Modules_mods1.cfg", "mods1", True, 130, 1600),
+    ("MC_Modules_rev.cfg", "rev", True, 20, 150),
+    ("MC_Modules_dep2.cfg", "dep2", True, 130, 1600),
+    ("MC_Modules_hist.cfg", "hist", True, 170, 2000),
+    ("MC_Modules_simsafe.cfg", "simsafe", False, 280, 2400),
+    ("MC_Modules_sim.cfg", "sim", False, 160, 1600),
+    ("MC_Modules_simerrsafe.cfg", "simerrsafe", False, 80, 800),
+    ("MC_Modules_simerr.cfg", "simerr", False, 56, 480),
+]
+
+
+def generate(tier, seed, r, work):
+    rnd = random.Random(seed)
+    out = []
+    for cfg, prefix, exhaustive, nq, nt in FAMILIES:
+        want = nq if tier == "quick" else nt
+        if exhaustive:
+            res = vlib.run_tlc("Modules", cfg, work, workers=8, timeout=900)
+            r.add_tlc(res)
+        else:
+            per_worker = (want + 7) // 8
+            res = vlib.run_tlc("Modules", cfg, work, workers=8, timeout=900, simulate=f"num={per_worker}", seed=seed)
+        seen, cs = set(), []
+        for c in res["cases"]:
+            k = render(c, prefix)
+            if k["id"] not in seen:
+                seen.add(k["id"])
+                cs.append(k)
+        cs.sort(key=lambda k: k["id"])
+        total = len(cs)
+        if len(cs) > want:
+            cs = rnd.sample(cs, want)
+        r.notes.append(f"{prefix}: {total} cases generated ({'exhaustive slice' if exhaustive else 'seeded simulation'}), {len(cs)} replayed")
+        out += cs
+    return out
+
+
+def run(tier, seed):
+    work = os.path.join(vlib.WORK, PROP)
+    shutil.rmtree(FILES, ignore_errors=True)
+    r = vlib.Result(PROP, tier, seed)
+    rnd = random.Random(seed + 1)
+    cases = generate(tier, seed, r, work)
+    materialise(cases)
+    n_mut = selftest(cases, work)
+    r.notes.append(f"self-test: {n_mut} mutant oracles reported by the replayer")
+
+    plan = [("dflt", cases)]
+    minl = cases if tier == "thorough" else rnd.sample(cases, int(len(cases) * 0.55))
+    plan.append(("minl", minl))
+    nj = rnd.sample(cases, min(len(cases), 160 if tier == "quick" else 1200))
+    plan.append(("nojit", nj[: len(nj) // 2]))
+    plan.append(("nojit-minl", nj[len(nj) // 2:]))
+    for envname, cs in plan:
+        rc, vs = replay_env(cs, work, envname, f"c14-{envname}")
+        r.add_cases(rc, vs, nontrivial=nontrivial)
+        r.notes.append(f"{envname}: {len(rc)} histories, {sum(1 for v in vs if not v['pass'])} not as specified")
+    r.cov["rule"] = ("engine histories generated by Modules.tla: exhaustive slices (one module x every visibility "
+                     "assignment x every modifier; two modules x module-level modifiers; 3-unit histories with failing "
+                     "units and erroneous modules) and seeded simulations of the full product (<= 3 modules, <= 2 "
+                     "requires per module/unit, 3 units), each on a fresh engine, under STEEL_MODULE_INLINE unset/1 "
+                     "and a sample with STEEL_JIT=false; non-trivial = >= 2 module files, or a modifier other than "
+                     "plain, or a unit-defined name, or a failing unit/module, or > 1 unit")
+    r.cov["exhaustive"] = False
+    r.assumptions.append("module files do not change during a history (recompilation of changed files is not modelled)")
+    r.assumptions.append("for-syntax provides / macros (C13 machinery), built-in and dylib modules are out of scope")
+    return r.finish()
+
+
+def replay_file(path):
+    with open(path) as f:
+        obj = json.load(f)
+    case = obj["case"]
+    if "files" in case:
+        base = dict(case, id=case["id"].rsplit(".", 1)[0])
+        materialise([base])
+    envname = case["id"].rsplit(".", 1)[-1]
+    return vlib.replay_file(PROP, path, env_extra=ENVS.get(envname))
